@@ -209,6 +209,13 @@ func CPUMem(cpu float64, mem int64) resourcetypes.Resources {
 	}}
 }
 
+// CPUMemBind is CPUMem with cpu-bind: every instance owns its cores (per-core usage matters).
+func CPUMemBind(cpu float64, mem int64) resourcetypes.Resources {
+	r := CPUMem(cpu, mem)
+	r["cpumem"]["cpu-bind"] = true
+	return r
+}
+
 // AddPod adds a pod through Calcium.
 func (w *World) AddPod(name string) error {
 	_, err := w.C.AddPod(w.Ctx, name, "")
